@@ -15,6 +15,7 @@ mod c13;
 mod c15;
 mod c16;
 mod c18;
+mod c19b;
 mod endops;
 mod c20;
 mod memws;
@@ -86,6 +87,7 @@ fn main() {
         "c15" => c15::run(&p),
         "c16" => c16::run(&p),
         "c18" => c18::run(&p),
+        "c19b" => c19b::run(&p),
         "c20" => c20::run(&p),
         "noop" => (Stats::new(), "noop"),
         "c10-debug" => {
